@@ -496,6 +496,41 @@ where
             }
         }
     }
+    // (3) the same write faults hit in the middle of a BATCH encode: the coder must be left exactly
+    //     as the per-symbol loop leaves it (everything encoded before the failing symbol is on the
+    //     coder, nothing of the failing one), for every batch entry point
+    {
+        let m0 = &zoo[0];
+        let n2 = rng.usize_in(2, if run.small { 10 } else { 40 });
+        let syms: Vec<usize> = (0..n2).map(|_| pick_symbol(rng, m0.cdf())).collect();
+        let items: Vec<(usize, &M)> = syms.iter().map(|&s| (s, m0)).collect();
+        let forms = [EncForm::Symbols, EncForm::SymbolsReverse, EncForm::Iid, EncForm::IidReverse, EncForm::TrySymbols, EncForm::TrySymbolsReverse];
+        let form = forms[rng.below(forms.len() as u64) as usize];
+        let reversed = matches!(form, EncForm::SymbolsReverse | EncForm::IidReverse | EncForm::TrySymbolsReverse);
+        let order: Vec<(usize, &M)> = if reversed { items.iter().rev().cloned().collect() } else { items.clone() };
+        let mut free: AnsCoder<M::W, S, FaultyBackend<M::W>> = AnsCoder::from_raw_parts(FaultyBackend::new(None, None), S::of(0));
+        if M::ans_encode_many(&mut free, &order, EncForm::Loop, None) != BatchOutcome::Ok {
+            fail!("C09/harness-batch", "fault-free per-symbol loop failed");
+        }
+        let tw = free.bulk().writes_attempted;
+        for k in 1..=tw {
+            let mut twin: AnsCoder<M::W, S, FaultyBackend<M::W>> = AnsCoder::from_raw_parts(FaultyBackend::new(Some(k), None), S::of(0));
+            let r_twin = M::ans_encode_many(&mut twin, &order, EncForm::Loop, None);
+            let mut c: AnsCoder<M::W, S, FaultyBackend<M::W>> = AnsCoder::from_raw_parts(FaultyBackend::new(Some(k), None), S::of(0));
+            let r = M::ans_encode_many(&mut c, &items, form, None);
+            if r != BatchOutcome::Backend || r_twin != BatchOutcome::Backend {
+                fail!("C09/ans-wrong-error-on-failed-write", "batch form {form:?}: write #{k} of {tw} failed, batch returned {r:?}, per-symbol loop {r_twin:?}");
+            }
+            if c.bulk().v != twin.bulk().v || c.state() != twin.state() {
+                fail!(
+                    "C09/ans-batch-changed-by-failed-write",
+                    "batch form {form:?} over {n2} symbols, write #{k} of {tw} fails: coder left with state {:#x} and {} words, the per-symbol loop with state {:#x} and {} words",
+                    c.state().as_u(), c.bulk().v.len(), twin.state().as_u(), twin.bulk().v.len()
+                );
+            }
+            run.count("write_faults_injected_in_batch", 1);
+        }
+    }
     let _ = words_u128(&reference);
     run.describe(|| desc);
 }
